@@ -129,7 +129,7 @@ def t1(prog, rep):
     for end in ("be", "le"):
         for W in (2, 4, 8):
             for kind in ("dec", "enc"):
-                name = "libcperciva_%s%d%s" % (end, 8 * W, kind)
+                name = "%s%d%s" % (end, 8 * W, kind)
                 f = fs.get(name)
                 if f is None:
                     rep.defer_broken("T1: %s not found (sysendian.h)" % name)
